@@ -38,13 +38,18 @@ class Ble(Radio):
 
     def freq_index_field(self):
         """name of the field that holds the index (0..2) of the current BLE channel: the field of self that whiten() reads and
-        hop_channel() writes - inferred, so renaming it is not noticed"""
+        hop_channel() or the channel setter writes - inferred, so renaming it is not noticed"""
         if getattr(self, "_fif", None) is None:
             import ast
             P = self.prog
             fw, fh = P.method(self.cls, "whiten"), P.method(self.cls, "hop_channel")
             loads = {n.attr for n in ast.walk(fw.node) if isinstance(n, ast.Attribute) and isinstance(n.ctx, ast.Load) and isinstance(n.value, ast.Name) and n.value.id == "self"}
-            stores = {n.attr for n in ast.walk(fh.node) if isinstance(n, ast.Attribute) and isinstance(n.ctx, ast.Store) and isinstance(n.value, ast.Name) and n.value.id == "self"}
+            writers = [fh]
+            try:
+                writers.append(P.method(self.cls, "channel", "set"))     # hop_channel() may leave the bookkeeping to the channel setter
+            except AnalysisError:
+                pass
+            stores = {n.attr for w in writers for n in ast.walk(w.node) if isinstance(n, ast.Attribute) and isinstance(n.ctx, ast.Store) and isinstance(n.value, ast.Name) and n.value.id == "self"}
             cand = sorted(x for x in loads & stores if self.cls.lookup(x) is None or self.cls.lookup(x)[0] not in ("prop", "method"))
             if len(cand) != 1:
                 raise AnalysisError("cannot identify the field holding the BLE channel index (candidates: %r)" % (cand,))
